@@ -494,6 +494,68 @@ pub fn c07(pid: i32, o: &DumpOpts, bytes: &[u8]) -> Vec<(String, String)> {
     fails
 }
 
+/// C12 (the part that does not depend on how the writer merged memory-map lines): with sanitising on,
+/// bytes below the stack pointer are zero; every word at or above it is either the target's word or
+/// the sentinel; words that qualify for certain (small integers, addresses inside the line that holds
+/// the stack pointer, addresses inside an executable line) are unchanged; words that certainly do not
+/// qualify (not a small integer, in no mapping at all) are the sentinel.
+pub fn c12(pid: i32, o: &DumpOpts, bytes: &[u8]) -> Vec<(String, String)> {
+    const SENTINEL: u64 = 0x0defaced0defaced;
+    let mut fails = Vec::new();
+    if !o.sanitize || !alive(pid) {
+        return fails;
+    }
+    let d = Dump::parse(bytes);
+    let maps = maps_of(pid);
+    for (pos, th) in d.threads.iter().enumerate() {
+        if th.stack.size == 0 {
+            continue;
+        }
+        let (Some(cb), Some(got)) = (d.loc_bytes(bytes, &th.context), d.loc_bytes(bytes, &th.stack)) else { continue };
+        if cb.len() != off::SIZE {
+            continue;
+        }
+        let sp = off::u64_at(cb, off::RSP);
+        let start = th.stack_start;
+        let len = got.len() as u64;
+        let Some(want) = read_target(pid, start, got.len()) else { continue };
+        let tag = format!("thread {} at list position {pos} (sp {sp:#x}, region [{start:#x}, +{len}))", th.tid);
+        let sp_off = if sp >= start && sp < start + len { (sp - start) as usize } else { 0 };
+        if let Some(i) = got[..sp_off].iter().position(|b| *b != 0) {
+            fails.push(("bytes-below-sp-not-zero".into(), format!("{tag}: byte {i} below the stack pointer is {:#x}", got[i])));
+            continue;
+        }
+        let own = maps.iter().find(|l| l.start <= sp && sp < l.end).map(|l| (l.start, l.end));
+        let mut o8 = (sp_off + 7) & !7;
+        // the first word may straddle sp when sp is not word aligned inside the copy: start at the aligned offset
+        while o8 + 8 <= got.len() {
+            let g = u64::from_le_bytes(got[o8..o8 + 8].try_into().unwrap());
+            let w = u64::from_le_bytes(want[o8..o8 + 8].try_into().unwrap());
+            if g != w && g != SENTINEL {
+                fails.push(("word-neither-kept-nor-sentinel".into(), format!("{tag}: word at {:#x} is {g:#x}, the target has {w:#x}", start + o8 as u64)));
+                break;
+            }
+            let small = (w as i64).unsigned_abs() <= 4096;
+            let in_own = own.map(|(s, e)| w >= s && w < e).unwrap_or(false);
+            let line = maps.iter().find(|l| l.start <= w && w < l.end);
+            let in_exec = line.map(|l| l.perms[2] == b'x').unwrap_or(false);
+            if (small || in_own || in_exec) && g != w {
+                fails.push(("qualifying-word-changed".into(), format!("{tag}: word {w:#x} at {:#x} qualifies (small integer / own stack / executable mapping) but was replaced", start + o8 as u64)));
+                break;
+            }
+            if !small && line.is_none() && g != SENTINEL && w != SENTINEL {
+                fails.push(("nonqualifying-word-survived".into(), format!("{tag}: word {w:#x} at {:#x} points into no mapping and is not a small integer, yet it survived", start + o8 as u64)));
+                break;
+            }
+            o8 += 8;
+        }
+        if got[o8..].iter().any(|b| *b != 0) {
+            fails.push(("trailing-partial-word-not-zero".into(), format!("{tag}: the trailing partial word is not zero")));
+        }
+    }
+    fails
+}
+
 /// C15: names pair listed threads with what the kernel reports.
 pub fn c15(pid: i32, _o: &DumpOpts, bytes: &[u8]) -> Vec<(String, String)> {
     if !alive(pid) {
